@@ -11,6 +11,9 @@ OPEN = [
     ("C12", "R-KINDS", "evaluator.evalString|a string literal evaluates to the text as written",
      "a map key that contains &, < or > cannot be reached by its name: `{{ m[\"a&b\"] }}` with data {\"m\": {\"a&b\": 1}} fails with \"property 'a&amp;b' not found\". String literals are HTML-escaped when they are evaluated (evalString), not when they are printed, so the index, the built-ins (`\"<b>\".len()` is 9) and custom functions see the escaped text. C10 is stated in terms of this design (unescaping the output gives back the literal; raw() is the opt-out); moving the escaping to the printer changes what every string value means and is not a small repair: recorded",
      "EvaluateString(`{{ m[\"a&b\"] }}`, map[string]any{\"m\": map[string]any{\"a&b\": 1}}) returns the error \"property 'a&amp;b' not found in type 'OBJECT'\""),
+    ("C09", "R-RECDEPTH", "object.NativeToObject|recursion through NativeToObject is bounded by a depth guard",
+     "the conversion of the caller's data recurses through pointers, slices, maps and struct fields without a depth limit or a visited set: data with a pointer cycle (`type N struct{ Name string; Next *N }; n := &N{Name: \"a\"}; n.Next = n`) ends the process with `fatal error: stack overflow`, which is not a panic and cannot be recovered. Detecting cycles needs a visited set threaded through the four conversion functions (or a depth limit, which is a design decision): recorded, not repaired",
+     "EvaluateString(\"{{ n.name }}\", map[string]any{\"n\": n}) with n.Next = n"),
     ("C08", "R-RECDEPTH", "parser.parseExpression|recursion through parseExpression is bounded by a depth guard",
      "expressions are parsed by recursive descent without a nesting limit: `{{ ` + 3,000,000 x `(` + `1` + 3,000,000 x `)` + ` }}` (6 MB) ends the process with `fatal error: stack overflow` (goroutine stack exceeds 1000000000-byte limit), which no recover can catch. A nesting limit is a design decision (which limit, which error) and needs a counterpart for the left spine of `1+1+1+...` that the evaluator recurses over: recorded, not repaired",
      "EvaluateString(\"{{ \" + strings.Repeat(\"(\", 3000000) + \"1\" + strings.Repeat(\")\", 3000000) + \" }}\", nil)"),
@@ -92,6 +95,8 @@ FIXED = [
     ("C08", "5bff172", "`{{ x )` was accepted although its `{{` is never closed: `)` counts as an end of embedded code and was skipped without an error where a statement is expected"),
     ("C12", "0a000e4", "field `Élan` was not reachable as `s[\"élan\"]` / `s.élan`: the first-letter fallback upper-cased the first byte (`idx[:1]`), not the first letter"),
     ("C03", "e601156", "`{{ n = 0 }}@for(; n < 3; n++){{ n }}@end` never ended (the value of the post clause was bound to the init variable only; without one the step was lost) and `@for(i = 0; i < 6; i = i + 2)` failed with \"cannot assign variable 'i' of type 'INTEGER' to type 'NIL'\" (the nil an assignment yields was bound to i)"),
+    ("C19", "b97f69a", "the ILLEGAL token of an unterminated string ended one column (or one line) past the last byte and the end-of-input token two past it: readString skipped \"the closing quote\" also when the input had ended"),
+    ("C13", "b97f69a", "`a\\n{{ \"abc }}\\n\\n` (an unterminated string) was reported on line 4 of a 3-line input"),
     ("C17", "d3e3b1f", "`a@dump(nope)b` rendered successfully with the error object (message and, for files, the path) inside the page: evalDumpStmt never tested the argument with isError"),
 ]
 
